@@ -10,7 +10,7 @@ from vlib.wsgi import make_environ, call_app
 
 ID = 'C20'
 LEVEL = 'exploration'
-RULE = ('case = (error kind in {404, 404 whose whole path is the payload (URL-shaped text: scheme://[authority, //host, fragments), 404 next to an existing wildcard route (doubled / trailing slashes, extra segment, other case), 405 (literal and wildcard route), 400 malformed chunked body, 400 undecodable path, 500 handler crash whose exception text is the payload, '
+RULE = ('(error kinds incl. failures at the first / second next() of a handler generator and in before / after hooks, the exception carrying the payload) case = (error kind in {404, 404 whose whole path is the payload (URL-shaped text: scheme://[authority, //host, fragments), 404 next to an existing wildcard route (doubled / trailing slashes, extra segment, other case), 405 (literal and wildcard route), 400 malformed chunked body, 400 undecodable path, 500 handler crash whose exception text is the payload, '
         'last-resort critical-error page (custom error handler that raises / unknown charset)}, payload placed in the path, the query string (also as the value of well-known keys such as callback / jsonp / format), Host, '
         'X-Forwarded-Host and 16 other request headers (X-Request-ID, User-Agent, Referer, Cookie ...), Accept = HTML or application/json, client headers of 11 kinds of user agents, debug off (possibly switched off at run time after error pages were rendered in debug mode); optionally after 1-3 earlier requests for the same error on the same application with another Accept / a benign payload). Payloads are built from fragments: marker markup <zqx>, closing tags of the '
         'template, attribute breakers ("zqx"), percent-encoded and double-encoded markup (%3Czqx%3E, %253C..), pre-escaped entities, format-string '
@@ -32,7 +32,7 @@ _SHORT = st.lists(st.sampled_from(FRAGS), min_size=1, max_size=5).map(''.join)
 PAYLOAD = st.one_of(_SHORT, _SHORT, _SHORT,
                     st.tuples(_SHORT, st.sampled_from([300, 1100, 2100, 5000]), st.sampled_from(['a', '%41', 'é', '&'])).map(lambda t: t[0] + t[2] * t[1]),
                     st.tuples(_SHORT, st.sampled_from([300, 1100, 2100, 5000]), st.sampled_from(['a', '/', 'b=1&'])).map(lambda t: t[2] * t[1] + t[0]))
-KINDS = ['500-decode', '500-bytes', '500-object', '404', '404-root', '404-near-route', '405', '405-wild', '400-chunked', '400-path', '500', 'critical-handler', 'critical-charset']
+KINDS = ['500-gen-first', '500-gen-conv', '500-gen-second', '500-before-hook', '500-after-hook', '500-decode', '500-bytes', '500-object', '404', '404-root', '404-near-route', '405', '405-wild', '400-chunked', '400-path', '500', 'critical-handler', 'critical-charset']
 
 
 class Skel(HTMLParser):
@@ -91,6 +91,25 @@ def build_app(kind, payload):
             raise ValueError(payload.encode('utf8'), {1, 2}, KeyError(payload))
         raise LookupError(object(), payload)
     app.route('/crash2', callback=crash2)
+
+    def gen():
+        # failures at the first / second next() of a handler's generator (the exception carries request data)
+        q = app.request.query.get('how', '')
+
+        def g():
+            if q == 'gen-second':
+                yield ''
+                yield 'first piece'
+            if q == 'gen-conv':
+                int(payload)
+            raise RuntimeError(payload)
+            yield 'never'
+        return g()
+    app.route('/gen', callback=gen)
+    if kind in ('500-before-hook', '500-after-hook'):
+        def failing_hook():
+            raise RuntimeError(payload)
+        app.add_hook('before_request' if kind == '500-before-hook' else 'after_request', failing_hook)
 
     def body():
         return app.request.body.read()
@@ -176,6 +195,10 @@ def _make_request(kind, payload, where, accept):
         return make_environ('GET', '/', qs=qs, headers=headers, raw_path=raw), 400
     if kind == '500':
         return make_environ('GET', '/crash', qs=qs, headers=headers), 500
+    if kind.startswith('500-gen'):
+        return make_environ('GET', '/gen', qs='how=' + kind[4:] + '&' + qs, headers=headers), (500, 200)       # (a failure after the first piece cannot become an error page any more)
+    if kind in ('500-before-hook', '500-after-hook'):
+        return make_environ('GET', '/ok', qs=qs, headers=headers), (500, 200)
     if kind.startswith('500-'):
         return make_environ('GET', '/crash2', qs='how=' + kind[4:] + '&' + qs, headers=headers), 500
     if kind == 'critical-charset':
@@ -221,7 +244,7 @@ def _check_case(ctx, case):
     for b_payload, b_accept in case.get('before') or ():
         b_env, _ = make_request(kind, payload if b_payload == 'same' else b_payload, where, b_accept)
         rb = call_app(app, b_env)
-        if rb.escaped is not None:
+        if rb.escaped is not None and not (kind == '500-gen-second' and rb.code == 200):
             raise CheckFailure(f'{kind}: exception escaped from an earlier request: {fmt_exc(rb.escaped)}')
         ctx.count('earlier_request_on_the_same_application')
     if case.get('debug_before'):
@@ -234,6 +257,9 @@ def _check_case(ctx, case):
         ctx.count('debug_switched_off_at_run_time')
     env, want_code = make_request(kind, payload, where, accept, case.get('client'))
     r = call_app(app, env)
+    if kind == '500-gen-second' and r.escaped is not None and r.code == 200:
+        ctx.count('failure_after_the_first_piece_left_to_the_server')        # the response had started: no error page can be generated any more
+        return
     if r.escaped is not None:
         raise CheckFailure(f'{kind}: exception escaped: {fmt_exc(r.escaped)}')
     if r.code == 200 and isinstance(want_code, tuple) and 200 in want_code:
